@@ -653,7 +653,7 @@ class Resolver:
         helper's return expression with the arguments substituted (phi over several returns)."""
         from .anchors import KNOWN_FUNCTIONS
 
-        if callee.name in KNOWN_FUNCTIONS or callee.name.startswith("__") or kws:
+        if callee.name in KNOWN_FUNCTIONS or (callee.name.startswith("__") and callee.name.endswith("__")) or kws:
             return None
         stack = getattr(self.m, "_inline_stack", None)
         if stack is None:
